@@ -217,6 +217,7 @@ def check_property(pid, tier, seed):
         "explanation": getattr(prop, "EXPLANATION", ""),
         "known_findings_reported": [k["finding"]["what"] for k in known_hits],
         "not_proved_clauses": list(getattr(prop, "NOT_PROVED", [])),
+        "assumed_callee_contracts": _assumed_callees(getattr(run, "used_contracts", set())),
     }
     if level != "proof":
         coverage["explanation"] = (coverage["explanation"] + " | level 'other': " + "; ".join(w for _, w in undecided))[:4000] if undecided else coverage["explanation"]
@@ -271,6 +272,31 @@ def check_property(pid, tier, seed):
             return 2
         return 0 if bounded else 2
     return 0
+
+
+def _assumed_callees(used):
+    """contracts that were applied at call sites in this run but are not verified against a body by any property check (caller views of external or
+    out-of-reach functions, abstract oracles): a mechanical scan, reported as assumptions"""
+    verified = set()
+    props_dir = os.path.join(VERIF, "props")
+    for f in sorted(os.listdir(props_dir)):
+        if f.startswith("C") and f.endswith(".py"):
+            try:
+                m = importlib.import_module(f"props.{f[:-3]}")
+                verified |= set(getattr(m, "FUNCTIONS", []))
+            except Exception:  # noqa: BLE001
+                pass
+    from .api import REG
+
+    out = []
+    for n in sorted(used):
+        if n in verified:
+            continue
+        c = REG.contracts.get(n)
+        # a caller view whose function has some verified variant is a *view* of verified code; anything else is assumed
+        has_body = c is not None and any(v.qual == c.qual and v.name in verified for v in REG.contracts.values())
+        out.append(n + (" (caller view; a variant of this function is verified against its body)" if has_body else " (ASSUMED: no variant verified against a body)"))
+    return out
 
 
 def short_q(q):
